@@ -46,6 +46,15 @@ func run(c *hlib.Ctx) {
 	for i := 0; i < n; i++ {
 		kindMapFnExact(c)
 	}
+	for i := 0; i < n/4+1; i++ {
+		kindHist(c)
+	}
+	for i := 0; i < n/2; i++ {
+		kindNearTree(c)
+	}
+	for i := 0; i < n/2; i++ {
+		kindNearMap(c)
+	}
 }
 
 // ---------------------------------------------------------------- grow: the state machine, exactly
@@ -348,15 +357,20 @@ type paramSetup struct {
 	lo, hi   float64
 }
 
-func (p *paramSetup) weightSection() string {
+func (p *paramSetup) weightSection() string { return wSection(p.x, p.weights) }
+
+func (p *paramSetup) boundarySection() string { return "B" + bSection(p.x, p.boundary) }
+
+// wSection renders an edge-weight map as `W n (centre neighbour weight)*`, sorted.
+func wSection(x *indexed, weights *model3d.EdgeMap[float64]) string {
 	var b strings.Builder
 	type e struct {
 		c, n int
-		w float64
+		w    float64
 	}
 	var es []e
-	p.weights.Range(func(k [2]model3d.Coord3D, w float64) bool {
-		es = append(es, e{p.x.vid[k[0]], p.x.vid[k[1]], w})
+	weights.Range(func(k [2]model3d.Coord3D, w float64) bool {
+		es = append(es, e{x.vid[k[0]], x.vid[k[1]], w})
 		return true
 	})
 	sort.Slice(es, func(i, j int) bool {
@@ -372,19 +386,24 @@ func (p *paramSetup) weightSection() string {
 	return b.String()
 }
 
-func (p *paramSetup) boundarySection() string {
+// bSection renders a coordinate map as ` n (id x y)*`, sorted by vertex id (a key that is not a mesh vertex gets the id one past the last).
+func bSection(x *indexed, m *model3d.CoordMap[model2d.Coord]) string {
 	var b strings.Builder
 	type e struct {
 		id int
 		v  model2d.Coord
 	}
 	var es []e
-	p.boundary.Range(func(k model3d.Coord3D, v model2d.Coord) bool {
-		es = append(es, e{p.x.vid[k], v})
+	m.Range(func(k model3d.Coord3D, v model2d.Coord) bool {
+		id, ok := x.vid[k]
+		if !ok {
+			id = len(x.coords)
+		}
+		es = append(es, e{id, v})
 		return true
 	})
 	sort.Slice(es, func(i, j int) bool { return es[i].id < es[j].id })
-	fmt.Fprintf(&b, "B %d", len(es))
+	fmt.Fprintf(&b, " %d", len(es))
 	for _, x := range es {
 		fmt.Fprintf(&b, " %d %s %s", x.id, r(x.v.X), r(x.v.Y))
 	}
@@ -430,31 +449,48 @@ func newSetup(c *hlib.Ctx, exact bool, maxTris int) *paramSetup {
 			if exact {
 				wk = 3
 			}
-			switch wk {
-			case 0:
-				p.weights, p.wdesc = model3d.Floater97UniformWeights(d), "uniform"
-			case 1:
-				p.weights, p.wdesc = model3d.Floater97InvChordLengthWeights(d, 1+c.Rng.Float64()), "invchord"
-			case 2:
-				p.weights, p.wdesc = model3d.Floater97ShapePreservingWeights(d), "shape"
-			default:
-				p.weights, p.wdesc = model3d.NewEdgeMap[float64](), "dyadic"
-				for v, ns := range p.nbrs {
-					if _, isB := p.boundary.Load(x.coords[v]); isB {
-						continue
-					}
-					ws := dyadicWeights(c, len(ns))
-					for i, nb := range ns {
-						p.weights.Store([2]model3d.Coord3D{x.coords[v], x.coords[nb]}, ws[i])
-					}
-				}
-			}
+			p.weights, p.wdesc = pickWeights(c, p, wk, func(v model3d.Coord3D) bool {
+				_, isB := p.boundary.Load(v)
+				return isB
+			})
 		})
 		if st != "ok" || !ok {
 			c.Stat("setup-failed:"+st, 1)
 			continue
 		}
 		return p
+	}
+}
+
+// pickWeights builds one of the four weightings for the disc of p: the library's uniform, inverse
+// chord length and shape-preserving weights, or random positive dyadic weights summing to 1.
+func pickWeights(c *hlib.Ctx, p *paramSetup, wk int, isBoundary func(model3d.Coord3D) bool) (*model3d.EdgeMap[float64], string) {
+	x := p.x
+	switch wk {
+	case 0:
+		return model3d.Floater97UniformWeights(x.m), "uniform"
+	case 1:
+		return model3d.Floater97InvChordLengthWeights(x.m, 1+c.Rng.Float64()), "invchord"
+	case 2:
+		return model3d.Floater97ShapePreservingWeights(x.m), "shape"
+	default:
+		w := model3d.NewEdgeMap[float64]()
+		var vs []int
+		for v := range p.nbrs {
+			vs = append(vs, v)
+		}
+		sort.Ints(vs)
+		for _, v := range vs {
+			if isBoundary(x.coords[v]) {
+				continue
+			}
+			ns := p.nbrs[v]
+			ws := dyadicWeights(c, len(ns))
+			for i, nb := range ns {
+				w.Store([2]model3d.Coord3D{x.coords[v], x.coords[nb]}, ws[i])
+			}
+		}
+		return w, "dyadic"
 	}
 }
 
@@ -466,8 +502,14 @@ func kindSystem(c *hlib.Ctx) {
 	x := p.x
 	rec := &recSolver{}
 	var res *model3d.CoordMap[model2d.Coord]
-	st := watchdog(func() { res = model3d.Floater97(x.m, p.boundary, p.weights, rec) })
+	// the boundary as it is BEFORE the call decides which vertices are unknowns
 	head := fmt.Sprintf("c18 system T %s %s %s", soupStr(x.soup), p.boundarySection(), p.weightSection())
+	isB0 := map[model3d.Coord3D]bool{}
+	p.boundary.Range(func(k model3d.Coord3D, v model2d.Coord) bool {
+		isB0[k] = true
+		return true
+	})
+	st := watchdog(func() { res = model3d.Floater97(x.m, p.boundary, p.weights, rec) })
 	if st != "ok" {
 		c.Emit(head, st)
 		return
@@ -476,7 +518,7 @@ func kindSystem(c *hlib.Ctx) {
 	rowOf := map[int]int{}
 	vertOf := map[int]int{}
 	res.Range(func(k model3d.Coord3D, v model2d.Coord) bool {
-		if _, isB := p.boundary.Load(k); !isB {
+		if !isB0[k] {
 			rowOf[x.vid[k]] = int(v.X)
 			vertOf[int(v.X)] = x.vid[k]
 		}
@@ -484,20 +526,34 @@ func kindSystem(c *hlib.Ctx) {
 	})
 	n := len(rowOf)
 	c.Stat("system-rows", n)
+	unknowns := -1
+	if len(rec.biases) == 2 {
+		unknowns = len(rec.biases[0])
+	}
+	if unknowns != n || len(vertOf) != n {
+		c.Emit(head, fmt.Sprintf("system-has-%d-unknowns-for-%d-interior-vertices", unknowns, n))
+		return
+	}
 	rows := make([]map[int]float64, n)
 	for i := range rows {
 		rows[i] = map[int]float64{}
 	}
 	if n > 0 && rec.op != nil {
-		for j := 0; j < n; j++ {
-			e := make(numerical.Vec, n)
-			e[j] = 1
-			col := rec.op(e)
-			for i, v := range col {
-				if v != 0 {
-					rows[i][j] = v
+		pst := watchdog(func() {
+			for j := 0; j < n; j++ {
+				e := make(numerical.Vec, n)
+				e[j] = 1
+				col := rec.op(e)
+				for i, v := range col {
+					if v != 0 {
+						rows[i][j] = v
+					}
 				}
 			}
+		})
+		if pst != "ok" {
+			c.Emit(head, "operator:"+pst)
+			return
 		}
 	}
 	var ids []int
@@ -627,14 +683,18 @@ func kindCircle(c *hlib.Ctx) {
 
 // ---------------------------------------------------------------- automatic atlas
 
+// uvLine renders the atlas over the mesh triangles in canonical order: how many triangles the mesh
+// has, how many keys the UV map has, which mesh triangles are keys (`C k indices`) and their UVs.
 func uvLine(x *indexed, uv model3d.MeshUVMap) (string, bool) {
-	var b strings.Builder
-	fmt.Fprintf(&b, "%d", len(x.tris))
-	for _, t := range x.tris {
+	var b, cov strings.Builder
+	k := 0
+	for i, t := range x.tris {
 		u, ok := uv[t]
 		if !ok {
-			return "", false
+			continue
 		}
+		k++
+		fmt.Fprintf(&cov, " %d", i)
 		for _, p := range u {
 			if math.IsNaN(p.X) || math.IsNaN(p.Y) || math.IsInf(p.X, 0) || math.IsInf(p.Y, 0) {
 				return "", false
@@ -642,27 +702,48 @@ func uvLine(x *indexed, uv model3d.MeshUVMap) (string, bool) {
 			fmt.Fprintf(&b, " %s %s", r(p.X), r(p.Y))
 		}
 	}
-	return b.String(), true
+	return fmt.Sprintf("M %d U %d C %d%s T %d%s", len(x.tris), len(uv), k, cov.String(), k, b.String()), true
 }
 
 func kindAtlas(c *hlib.Ctx) {
-	g := pickMesh(c, 260)
+	var g gmesh
+	switch c.Rng.Intn(5) {
+	case 0, 1:
+		for g = spikedMesh(c); g.m.NumTriangles() > 260; g = spikedMesh(c) {
+		}
+	case 2:
+		if c.Rng.Intn(3) == 0 {
+			g = longCone(c)
+			break
+		}
+		fallthrough
+	default:
+		g = pickMesh(c, 260)
+	}
 	x := index(g.m)
 	res := 1 << uint(5+c.Rng.Intn(6))
+	if strings.HasPrefix(g.label, "spiked") || g.label == "long-cone" {
+		// many small charts: the texture must be large enough for every quad-tree cell to be wider
+		// than its two borders (otherwise ToBounds panics or flattens the chart; `pack` covers that)
+		res = 1 << uint(8+c.Rng.Intn(5))
+	}
 	var uv model3d.MeshUVMap
 	st := watchdog(func() { uv = model3d.BuildAutomaticUVMap(g.m, res, false) })
 	c.Stat("atlas:"+baseLabel(g.label), 1)
-	head := fmt.Sprintf("c18 atlas RES %d T ", res)
+	head := fmt.Sprintf("c18 atlas RES %d ", res)
 	if st != "ok" {
-		c.Emit(head+st, "uv=ok")
+		c.Emit(head+"M "+st, "cover=ok uv=ok")
 		return
 	}
 	line, ok := uvLine(x, uv)
 	if !ok {
-		c.Emit(head+"missing-or-nan", "uv=ok")
+		c.Emit(head+"M nan", "cover=ok uv=ok")
 		return
 	}
-	c.Emit(head+line, "uv=ok")
+	c.Emit(head+line, "cover=ok uv=ok")
+	if len(uv) != len(x.tris) {
+		return
+	}
 	// MapFn round trip at barycentric sample points (float arithmetic: `near`, validation)
 	var fn func(model2d.Coord) (model3d.Coord3D, *model3d.Triangle)
 	if st := watchdog(func() { fn = uv.MapFn() }); st != "ok" {
@@ -673,6 +754,7 @@ func kindAtlas(c *hlib.Ctx) {
 		t := x.tris[c.Rng.Intn(len(x.tris))]
 		emitMapFn(c, "N", uv, fn, t, sampleBary(c, false))
 	}
+	nearAtlas(c, x, uv, fn)
 }
 
 func sampleBary(c *hlib.Ctx, allowEdge bool) [3]float64 {
